@@ -45,6 +45,8 @@ def cases(tier, seed):
         for s in F.P_ALL + F.P_HUGE:
             cf = ((),) if F.has_zero(s) else ((), ("dominated_operations", "non_idle_machines"))
             out.append(("time", s, cf))
+        for s in F.sliced(F.K5(), seed % 128, 128):
+            out.append(("time", s, ((),) if F.has_zero(s) else ((), ("dominated_operations", "non_idle_machines"))))
         out.append(("tlc", 2))
     else:
         for s in F.K4():
